@@ -104,6 +104,7 @@ type Report struct {
 	Notes     []string              `json:"notes,omitempty"`
 	// per case file: the inputs of its cases in order, so that a mismatch index can be mapped back
 	CaseIndex map[string][]interface{} `json:"case_index"`
+	perSig    map[string]int
 }
 
 func NewReport(scn string, seed uint64, tier string) *Report {
@@ -134,7 +135,12 @@ func (r *Report) Count(prop, key string, nontrivial bool, sample interface{}) {
 func (r *Report) Dist(prop, bucket string) { r.P(prop).Dist[bucket]++ }
 
 func (r *Report) Fail(prop, sig, what string, input, expected, observed interface{}) {
-	if len(r.Failures) < 200 {
+	// at most 25 failures per signature, so that a frequent (e.g. known) one cannot crowd out another
+	if r.perSig == nil {
+		r.perSig = map[string]int{}
+	}
+	r.perSig[prop+sig]++
+	if r.perSig[prop+sig] <= 25 {
 		r.Failures = append(r.Failures, Failure{prop, sig, what, input, expected, observed})
 	}
 }
